@@ -4,6 +4,7 @@ import (
 	"bufio"
 	"fmt"
 	"io"
+	"os"
 	"os/exec"
 	"strings"
 	"sync"
@@ -33,6 +34,7 @@ type Solver struct {
 	Queries  int
 	Time     time.Duration
 	Errors   int
+	Hangs    int
 	log      io.Writer
 	dead     bool
 }
@@ -46,7 +48,7 @@ func solverArgv(name string, timeoutMs int) []string {
 	case "z3new":
 		return []string{"z3-new", "-in", fmt.Sprintf("-t:%d", timeoutMs)}
 	case "cvc5":
-		return []string{"cvc5", "--incremental", "--strings-exp", "--produce-models", "--lang=smt2", fmt.Sprintf("--tlimit-per=%d", timeoutMs)}
+		return []string{"cvc5", "--incremental", "--strings-exp", "--produce-models", "--strings-model-max-len=1000000", "--lang=smt2", fmt.Sprintf("--tlimit-per=%d", timeoutMs)}
 	}
 	panic("unknown solver " + name)
 }
@@ -105,6 +107,11 @@ func (s *Solver) send(txt string) {
 		s.dead = true
 	}
 }
+
+// blobVars: string variables whose model value is never read (only their length)
+var blobVars sync.Map
+
+func MarkBlob(name string) { blobVars.Store(name, true) }
 
 func (s *Solver) readLine() (string, error) {
 	type res struct {
@@ -191,6 +198,9 @@ func (s *Solver) CheckA(asserts []*Term, want []*Term, ascii bool) (Result, []st
 						continue
 					}
 					seen[v] = true
+					if _, blob := blobVars.Load(v); blob {
+						continue // content is never read from the model (vfBlob); a regex over 64 KiB stalls the solvers
+					}
 					if d, ok := lookupDecl(v); ok && d.Kind == SString {
 						fmt.Fprintf(&b, "(assert (str.in_re %s (re.* (re.range \"\\u{0}\" \"\\u{7f}\"))))\n", quoteSym(d.Name))
 					}
@@ -203,8 +213,17 @@ func (s *Solver) CheckA(asserts []*Term, want []*Term, ascii bool) (Result, []st
 	line, err := s.readAnswer()
 	var res Result
 	switch {
+	case err != nil && err.Error() == "solver hang":
+		// the solver ignored its own time limit: same meaning as "unknown" (callers keep the
+		// branch / retry on the fallback and slow pools), not an encoding error
+		s.Hangs++
+		s.restart()
+		return Unknown, nil
 	case err != nil:
 		s.Errors++
+		if os.Getenv("GOSYM_DEBUG") != "" {
+			fmt.Fprintf(os.Stderr, "solver %s: check-sat error: %v\n", s.Name, err)
+		}
 		s.restart()
 		return Unknown, nil
 	case line == "sat":
@@ -221,6 +240,9 @@ func (s *Solver) CheckA(asserts []*Term, want []*Term, ascii bool) (Result, []st
 			v, err := s.readSexp()
 			if err != nil {
 				s.Errors++
+				if os.Getenv("GOSYM_DEBUG") != "" {
+					fmt.Fprintf(os.Stderr, "solver %s: get-value error: %v\n", s.Name, err)
+				}
 				s.restart()
 				return Sat, nil
 			}
